@@ -898,7 +898,8 @@ def analyze(plan, r):
     broken_futs = [t for t, c in r.futures.items() if isinstance(c, tuple) and c[0] in BROKEN]
     # 3. broken without any death (C07 / C04)
     if broken_futs and not kills and not fatal_kinds:
-        add(["C07", "C04", "C01"], "broken-without-death",
+        # after a resize nothing was killed and yet futures failed with a broken-pool error: the resize did not "preserve submitted work" (C10)
+        add(["C07", "C04", "C01"] + (["C10"] if fam in ("resize", "idleshrink", "growshrink") else []), "broken-without-death",
             f"broken-without-death crashes[{','.join(sorted(set(crashes)))}] ctx[{ctx}]",
             f"futures {broken_futs} failed with a BrokenProcessPool error although no worker was killed")
     # 4. execution log: at most once, never after a successful cancel
@@ -944,7 +945,8 @@ def analyze(plan, r):
             if notes["late_submit"] != "accepted" or notes.get("late_result") != ("value", -1):
                 add(["C04", "C01"], "pool-unusable", f"healthy-pool-refuses-work got[{notes.get('late_submit')},{notes.get('late_result')}] ctx[{ctx}]")
         if not kills and not fatal_kinds and flags.broken is not None:
-            add(["C04", "C07", "C05"], "broken-flag-without-death", f"broken-flag-without-death ctx[{ctx}]", repr(flags.broken)[:200])
+            add(["C04", "C07", "C05"] + (["C10"] if fam in ("resize", "idleshrink", "growshrink") else []), "broken-flag-without-death",
+                f"broken-flag-without-death ctx[{ctx}]", repr(flags.broken)[:200])
     # 7. graceful shutdown (C05)
     if fam == "shutdown" and ended and not kills:
         how = notes.get("shutdown")
